@@ -795,6 +795,12 @@ C11_Log ==
       /\ sopen[Ev.node] < stat[Ev.node].applied
      THEN {V("C11", "InstalledOlderThanApplied", <<Ev.node, sopen[Ev.node], stat[Ev.node].applied>>)} ELSE {})
   \cup
+  \* the boundary of a node's log never moves backwards: no snapshot older than the one the log
+  \* already starts at is installed (judged on the storage calls themselves, so that two
+  \* installations that overlap inside one quiescence period are seen)
+  (IF Is("log_discard") /\ ~Has("err") /\ Ev.node \in DOMAIN dur /\ Ev.index < Log(Ev.node).base
+     THEN {V("C11", "LogBoundaryMovedBackwards", <<Ev.node, Log(Ev.node).base, Ev.index>>)} ELSE {})
+  \cup
   \* an installed snapshot is, byte for byte, a snapshot some node produced
   (IF InstSnapshot /\ <<Ev.index, Ev.term, Ev.h, Ev.size>> \notin taken
      THEN {V("C11", "InstalledSnapshotNotFromSender", <<Ev.node, Ev.index, Ev.term, Ev.size, Ev.h>>)} ELSE {})
@@ -827,7 +833,7 @@ NewBad ==
                    THEN [b EXCEPT !.kf = "S5"]
                  ELSE IF b.p \in {"C10", "C11", "C01"} /\ Has("node") /\ (Ev.node \in s7 \/ KF_S7)
                       /\ b.c \in {"InstalledSnapshotNotFromSender", "SnapshotNotExact", "RestoredStateNotExact", "OperationAppliedTwice",
-                                  "OperationSkipped", "IndexMovedBackwards", "SnapshotNotASnapshot", "InstalledOlderThanApplied", "ApplyOrder"}
+                                  "OperationSkipped", "IndexMovedBackwards", "SnapshotNotASnapshot", "InstalledOlderThanApplied", "ApplyOrder", "LogBoundaryMovedBackwards"}
                    THEN [b EXCEPT !.kf = "S7"]
                  \* a member whose state machine was restored from such bytes never equals the leader's
                  ELSE IF b.p = "C15" /\ b.c = "NotConvergedWithin4B" /\ s7 # {}
